@@ -198,7 +198,12 @@ void pop3_quit(arg) char *arg;
 int msgno(arg) char *arg;
 {
   unsigned long u;
-  if (!scan_ulong(arg,&u)) { err_syntax(); return -1; }
+  unsigned int pos;
+  pos = scan_ulong(arg,&u);
+  if (!pos) { err_syntax(); return -1; }
+  while (*arg == '0') { ++arg; --pos; }
+  /* scan_ulong() wraps silently; nine significant digits always fit */
+  if (pos > 9) { err_toobig(); return -1; }
   if (!u) { err_nozero(); return -1; }
   --u;
   if (u >= numm || u >= INT_MAX) { err_toobig(); return -1; }
